@@ -212,6 +212,10 @@ package reclaimable
 // per resource that the reclaimer requests or that was taken under the sibling
 //@ define lvlCpu(queues map[common_info.QueueID]*rs.QueueAttributes, rem map[common_info.QueueID]rs.ResourceQuantities, inv map[common_info.QueueID]map[rs.ResourceName]any, r *Reclaimable, res *ri.Resource, q common_info.QueueID, s common_info.QueueID) bool = ("CPU" in inv[s] || res.milliCpu > 0.0) ==> !satU(baseCpu(queues, rem, q) + qCpu(res), queues[q].CPU.FairShare, rem[s]["CPU"], queues[s].CPU.FairShare, r.saturationMultiplier)
 //@ define lvlMem(queues map[common_info.QueueID]*rs.QueueAttributes, rem map[common_info.QueueID]rs.ResourceQuantities, inv map[common_info.QueueID]map[rs.ResourceName]any, r *Reclaimable, res *ri.Resource, q common_info.QueueID, s common_info.QueueID) bool = ("Memory" in inv[s] || res.memory > 0.0) ==> !satU(baseMem(queues, rem, q) + qMem(res), queues[q].Memory.FairShare, rem[s]["Memory"], queues[s].Memory.FairShare, r.saturationMultiplier)
+// NOTE (finding, reproduced on the real code, see report): "involved" follows getInvolvedResourcesNames, i.e. the whole-GPU
+// field `gpus`, while the quantities use gpus + MIG share. For a MIG-only reclaimer and MIG-only victims GPU is not
+// "involved" and the GPU saturation test is skipped although GPU quantity moves. The property-derived guard would be
+// qGpu(res) > 0 || (GPU quantity taken under s) > 0; with that guard [boundaries] does NOT hold for the code.
 //@ define lvlGpu(queues map[common_info.QueueID]*rs.QueueAttributes, rem map[common_info.QueueID]rs.ResourceQuantities, inv map[common_info.QueueID]map[rs.ResourceName]any, r *Reclaimable, res *ri.Resource, q common_info.QueueID, s common_info.QueueID) bool = ("GPU" in inv[s] || res.gpus > 0.0) ==> !satU(baseGpu(queues, rem, q) + qGpu(res), queues[q].GPU.FairShare, rem[s]["GPU"], queues[s].GPU.FairShare, r.saturationMultiplier)
 //@ define lvlOK(queues map[common_info.QueueID]*rs.QueueAttributes, rem map[common_info.QueueID]rs.ResourceQuantities, inv map[common_info.QueueID]map[rs.ResourceName]any, r *Reclaimable, res *ri.Resource, q common_info.QueueID, s common_info.QueueID) bool = lvlCpu(queues, rem, inv, r, res, q, s) && lvlMem(queues, rem, inv, r, res, q, s) && lvlGpu(queues, rem, inv, r, res, q, s)
 
